@@ -32,7 +32,7 @@ func (c17) Required() []string {
 func (c17) Cases(tier string, seed uint64) []core.Case {
 	n := 200
 	if tier == "thorough" {
-		n = 5000
+		n = 15000
 	}
 	r := core.NewRng(core.Mix(seed, 0xC17))
 	var out []core.Case
